@@ -1,7 +1,10 @@
 package main
 
 import (
+	"fmt"
+	"go/token"
 	"go/types"
+	"os"
 	"sort"
 	"strings"
 
@@ -144,12 +147,118 @@ type lockAnalysis struct {
 	sums    map[*ssa.Function]*lsummary
 	busy    map[*ssa.Function]bool
 	at      map[*ssa.Function]map[ssa.Instruction]*lstate // state BEFORE each instruction
+	wrF     *types.Var                                    // Tx.writable
+	kids    map[bool]*lockAnalysis                        // analyses specialised to one kind of transaction
+	root    *lockAnalysis
+	psums   map[string]*lsummary // summaries specialised to constant bool arguments
+}
+
+// forTx returns the analysis specialised to writable / read-only transactions.
+func (la *lockAnalysis) forTx(writable bool) *lockAnalysis {
+	r := la
+	if la.root != nil {
+		r = la.root
+	}
+	if v, ok := la.env[la.wrF]; ok && v == writable && la.root != nil {
+		return la
+	}
+	if r.kids == nil {
+		r.kids = map[bool]*lockAnalysis{}
+	}
+	if k, ok := r.kids[writable]; ok {
+		return k
+	}
+	env := map[*types.Var]bool{}
+	for k, v := range r.env {
+		env[k] = v
+	}
+	env[la.wrF] = writable
+	// a transaction reached through its creation site is treated as open (Tx.db non-nil)
+	if dbF := la.c.P.lookupField(rootPkg, "Tx", "db"); dbF != nil {
+		env[dbF] = true
+	}
+	k := newLockAnalysis(la.c, env)
+	k.root = r
+	r.kids[writable] = k
+	return k
+}
+
+// txKind decides whether a *Tx value is known to be a write or a read
+// transaction from where it was created (beginRWTx / beginTx / Begin(const)),
+// looking through closure bindings.
+func txKind(v ssa.Value, depth int) (writable bool, known bool) {
+	if depth > 4 || v == nil {
+		return false, false
+	}
+	sawT, sawF, other := false, false, false
+	for _, l := range provenance(v, provOpts{}) {
+		switch l.Kind {
+		case "call":
+			switch l.Name {
+			case "bbolt.(*DB).beginRWTx":
+				sawT = true
+			case "bbolt.(*DB).beginTx":
+				sawF = true
+			case "bbolt.(*DB).Begin":
+				if b, ok := constBool(l.V.(*ssa.Call).Call.Args[1]); ok {
+					if b {
+						sawT = true
+					} else {
+						sawF = true
+					}
+				} else {
+					other = true
+				}
+			default:
+				other = true
+			}
+		case "freevar":
+			fv, ok := l.V.(*ssa.FreeVar)
+			if !ok {
+				if u, isU := l.V.(*ssa.UnOp); isU {
+					fv, ok = u.X.(*ssa.FreeVar)
+				}
+			}
+			resolved := false
+			if ok && fv.Parent() != nil && fv.Parent().Parent() != nil {
+				idx := -1
+				for i, f := range fv.Parent().FreeVars {
+					if f == fv {
+						idx = i
+					}
+				}
+				eachInstr(fv.Parent().Parent(), func(in ssa.Instruction) {
+					if mc, isMC := in.(*ssa.MakeClosure); isMC && mc.Fn == fv.Parent() && idx >= 0 && idx < len(mc.Bindings) {
+						if w, k := txKind(mc.Bindings[idx], depth+1); k {
+							resolved = true
+							if w {
+								sawT = true
+							} else {
+								sawF = true
+							}
+						}
+					}
+				})
+			}
+			if !resolved {
+				other = true
+			}
+		case "param", "global":
+			other = true
+		}
+	}
+	if other || sawT == sawF {
+		return false, false
+	}
+	return sawT, true
 }
 
 var lockFieldNames = []string{"rwlock", "metalock", "mmaplock", "statlock", "batchMu"}
 
 func newLockAnalysis(c *Ctx, env map[*types.Var]bool) *lockAnalysis {
 	la := &lockAnalysis{c: c, env: env, locks: map[*types.Var]string{}, sums: map[*ssa.Function]*lsummary{}, busy: map[*ssa.Function]bool{}, at: map[*ssa.Function]map[ssa.Instruction]*lstate{}}
+	la.wrF = c.P.lookupField(rootPkg, "Tx", "writable")
+	la.psums = map[string]*lsummary{}
 	for _, n := range lockFieldNames {
 		if f := c.P.lookupField(rootPkg, "DB", n); f != nil {
 			la.locks[f] = n
@@ -219,7 +328,39 @@ func (la *lockAnalysis) calleeSummary(ci ssa.CallInstruction) *lsummary {
 	if f.Synthetic != "" && f.Syntax() == nil {
 		return nil
 	}
-	return la.summary(f)
+	use := la
+	args := ci.Common().Args
+	if f.Signature.Recv() != nil && len(args) > 0 && strings.HasSuffix(f.Signature.Recv().Type().String(), "bbolt.Tx") {
+		if w, known := txKind(args[0], 0); known {
+			use = la.forTx(w)
+		}
+	}
+	// constant boolean arguments select the callee's branches (db.Begin(true))
+	penv := map[*ssa.Parameter]bool{}
+	key := ""
+	for i, p := range f.Params {
+		if i < len(args) {
+			if b, ok := constBool(args[i]); ok {
+				penv[p] = b
+				key += fmt.Sprintf("%d=%v;", i, b)
+			}
+		}
+	}
+	if key == "" {
+		return use.summary(f)
+	}
+	key = shortFn(f) + "|" + key
+	if sm, ok := use.psums[key]; ok {
+		return sm
+	}
+	if use.busy[f] {
+		return nil
+	}
+	use.busy[f] = true
+	sm := use.analyzeP(f, penv, false)
+	delete(use.busy, f)
+	use.psums[key] = sm
+	return sm
 }
 
 // transferInstr applies one instruction. class selects which summary of
@@ -288,7 +429,53 @@ func (la *lockAnalysis) transferInstr(st *lstate, in ssa.Instruction, fn *ssa.Fu
 }
 
 func (la *lockAnalysis) analyze(fn *ssa.Function) *lsummary {
-	cut := cutByEnv(la.env)
+	return la.analyzeP(fn, nil, true)
+}
+
+func (la *lockAnalysis) analyzeP(fn *ssa.Function, penv map[*ssa.Parameter]bool, record bool) *lsummary {
+	envCut := cutByEnv(la.env)
+	cut := func(e edge) bool {
+		if envCut(e) {
+			return true
+		}
+		if len(penv) == 0 || len(e.from.Instrs) == 0 {
+			return false
+		}
+		iff, ok := e.from.Instrs[len(e.from.Instrs)-1].(*ssa.If)
+		if !ok {
+			return false
+		}
+		cond := iff.Cond
+		neg := false
+		if u, isU := cond.(*ssa.UnOp); isU && u.Op == token.NOT {
+			cond, neg = u.X, true
+		}
+		// a parameter captured by a closure lives in a cell with a single store
+		if ld, isLd := cond.(*ssa.UnOp); isLd && ld.Op == token.MUL {
+			if cell, isAlloc := ld.X.(*ssa.Alloc); isAlloc && cell.Referrers() != nil {
+				var only ssa.Value
+				n := 0
+				for _, r := range *cell.Referrers() {
+					if st, isSt := r.(*ssa.Store); isSt && st.Addr == cell {
+						n++
+						only = st.Val
+					}
+				}
+				if n == 1 {
+					cond = only
+				}
+			}
+		}
+		if p, isP := cond.(*ssa.Parameter); isP {
+			if b, has := penv[p]; has {
+				if neg {
+					b = !b
+				}
+				return (e.succ == 0) != b
+			}
+		}
+		return false
+	}
 	defers := deferredCalls(fn)
 	in := map[*ssa.BasicBlock]*lstate{}
 	in[fn.Blocks[0]] = newLState()
@@ -401,7 +588,9 @@ func (la *lockAnalysis) analyze(fn *ssa.Function) *lsummary {
 			la.transferInstr(s, ins, fn, nil, "", defers)
 		}
 	}
-	la.at[fn] = at
+	if record {
+		la.at[fn] = at
+	}
 	return sum
 }
 
@@ -433,6 +622,7 @@ func (la *lockAnalysis) context(ambient func(fn *ssa.Function) lset) *lockCtx {
 		in     ssa.Instruction
 	}
 	sites := map[*ssa.Function][]site{}
+	dispatched := map[*ssa.Function]bool{}
 	for _, f := range fns {
 		la.summary(f)
 		eachInstr(f, func(in ssa.Instruction) {
@@ -451,7 +641,16 @@ func (la *lockAnalysis) context(ambient func(fn *ssa.Function) lset) *lockCtx {
 			}
 			if callee != nil {
 				if pk := fnPkg(callee); pk != nil && pk.Path() == rootPkg {
-					sites[callee] = append(sites[callee], site{f, in})
+					// a dispatcher called with constant bool arguments (db.Begin(true)) is looked
+					// through: only the callees reachable under those constants get this context
+					if inner := la.dispatchTargets(callee, ci); inner != nil {
+						for _, t := range inner {
+							sites[t] = append(sites[t], site{f, in})
+						}
+						dispatched[callee] = true
+					} else {
+						sites[callee] = append(sites[callee], site{f, in})
+					}
 				}
 			}
 			// closures passed as arguments run inside the callee: approximate with the call site's state
@@ -472,6 +671,9 @@ func (la *lockAnalysis) context(ambient func(fn *ssa.Function) lset) *lockCtx {
 		if len(sites[f]) == 0 {
 			ctx.must[f] = lset{}
 			ctx.may[f] = ambient(f)
+			if dispatched[f] {
+				ctx.may[f] = lset{}
+			}
 		} else {
 			ctx.must[f] = all.clone() // top, narrowed below
 			ctx.may[f] = lset{}
@@ -511,6 +713,9 @@ func (la *lockAnalysis) context(ambient func(fn *ssa.Function) lset) *lockCtx {
 				}
 				for l := range st.may {
 					effMay[l] = true
+				}
+				if os.Getenv("VERIF_DEBUG_CTX") != "" && len(effMay) > 0 {
+					fmt.Fprintf(os.Stderr, "ctx: %s <- %s at %s may=%v\n", shortFn(f), shortFn(s.caller), la.c.P.Position(s.in.Pos()), effMay)
 				}
 				must = interLS(must, effMust)
 				may = unionLS(may, effMay)
@@ -561,5 +766,74 @@ func (la *lockAnalysis) heldMay(ctx *lockCtx, in ssa.Instruction) lset {
 	for l := range st.may {
 		out[l] = true
 	}
+	return out
+}
+
+// dispatchTargets: if callee has no lock operation of its own and the call
+// passes constant bool arguments, return the module callees reachable in it
+// under those constants (nil = not a dispatcher call).
+func (la *lockAnalysis) dispatchTargets(callee *ssa.Function, ci ssa.CallInstruction) []*ssa.Function {
+	args := ci.Common().Args
+	penv := map[*ssa.Parameter]bool{}
+	for i, p := range callee.Params {
+		if i < len(args) {
+			if b, ok := constBool(args[i]); ok {
+				penv[p] = b
+			}
+		}
+	}
+	if len(penv) == 0 || len(callee.Blocks) == 0 {
+		return nil
+	}
+	own := false
+	eachInstr(callee, func(in ssa.Instruction) {
+		if c2, ok := in.(ssa.CallInstruction); ok {
+			if _, dir := la.lockOp(c2); dir != 0 {
+				own = true
+			}
+		}
+	})
+	if own {
+		return nil
+	}
+	cut := func(e edge) bool {
+		iff, ok := e.from.Instrs[len(e.from.Instrs)-1].(*ssa.If)
+		if !ok {
+			return false
+		}
+		cond := iff.Cond
+		if ld, isLd := cond.(*ssa.UnOp); isLd && ld.Op == token.MUL {
+			if cell, isAlloc := ld.X.(*ssa.Alloc); isAlloc && cell.Referrers() != nil {
+				var only ssa.Value
+				n := 0
+				for _, r := range *cell.Referrers() {
+					if st, isSt := r.(*ssa.Store); isSt && st.Addr == cell {
+						n++
+						only = st.Val
+					}
+				}
+				if n == 1 {
+					cond = only
+				}
+			}
+		}
+		if p, isP := cond.(*ssa.Parameter); isP {
+			if b, has := penv[p]; has {
+				return (e.succ == 0) != b
+			}
+		}
+		return false
+	}
+	var out []*ssa.Function
+	for in := range reach(nil, []*ssa.BasicBlock{callee.Blocks[0]}, nil, cut) {
+		if c2, ok := in.(*ssa.Call); ok {
+			if t := calleeOf(c2).Static; t != nil {
+				if pk := fnPkg(t); pk != nil && pk.Path() == rootPkg && !(t.Synthetic != "" && t.Syntax() == nil) {
+					out = append(out, t)
+				}
+			}
+		}
+	}
+	sort.Slice(out, func(i, j int) bool { return shortFn(out[i]) < shortFn(out[j]) })
 	return out
 }
